@@ -93,9 +93,55 @@ def one_t(md, c, t, acc, sub="t"):
                               f"render({src!r}) = {out!r}, expected {exp!r}")
 
 
+# ---- every HTML5 named reference and the numeric spellings at the length limits --------------------------------
+def all_named():
+    out = []
+    for n, v in sorted(html.entities.html5.items()):
+        if n.endswith(";") and all(ord(ch) >= 32 and ch not in "\x7f" for ch in v):
+            out.append((n, v))
+    return out
+
+
+NUMERIC_POINTS = [0x21, 0x2A, 0x3C, 0x41, 0x5C, 0x7C, 0xA0, 0xE9, 0x2014, 0x200B, 0xFFFD, 0x10000, 0x1F600, 0x10FFFD]
+
+
+def numeric_spellings(cp):
+    out = []
+    d = str(cp)
+    for width in range(len(d), 8):
+        out.append("&#" + d.rjust(width, "0") + ";")
+    for hx in (f"{cp:x}", f"{cp:X}"):
+        for width in range(len(hx), 7):
+            for x in "xX":
+                out.append("&#" + x + hx.rjust(width, "0") + ";")
+    return out
+
+
+def ref_case(md, c, ref, value, acc, label):
+    """the reference `ref` must render as the literal text `value` in every context (alone and between letters)"""
+    xhtml = md.options["xhtmlOut"]
+    for pre, post in (("", ""), ("a", "b"), ("a ", " b")):
+        e = pre + ref + post
+        t = pre + value + post
+        if not ends_ok(t) or "\n" in value:
+            continue
+        h = esc_html(t)
+        for name, (src, exp) in cases(e, h, xhtml, True).items():
+            acc.case()
+            out = acc.call(md.render, src)
+            if out is CRASH:
+                continue
+            if out != exp:
+                acc.violation(name, f"{label}/{name}", {"cfg": c, "ref": ref, "value": value, "ctx": name, "pre": pre, "post": post},
+                              f"render({src!r}) = {out!r}, expected {exp!r}")
+    acc.sig(("ref", ref))
+
+
 def bounds(tier):
     return {"alphabet": CH, "L": 4 if tier == "thorough" else 3, "forms": list(FORMS), "configs": CFGS,
-            "contexts": ["p", "h", "em", "link", "img", "title", "td"], "named_references": len(NAMED)}
+            "contexts": ["p", "h", "em", "link", "img", "title", "td"], "named_references": len(NAMED),
+            "all_html5_names": len(all_named()), "numeric_points": [hex(x) for x in NUMERIC_POINTS],
+            "numeric_spellings": "decimal padded to 7 digits, hex (x/X, both cases) padded to 6 digits"}
 
 
 def shards(tier):
@@ -108,10 +154,30 @@ def shards(tier):
                     sh.append(("t2", a, b, L, ci))
             else:
                 sh.append(("t", a, L, ci))
+        names = all_named()
+        for i in range(0, len(names), 150):
+            sh.append(("names", i, min(len(names), i + 150), ci))
+        sh.append(("numeric", ci))
     return sh
 
 
 def run_shard(sh, acc):
+    if sh[0] == "names":
+        _, lo, hi, ci = sh
+        c = CFGS[ci]
+        md = C.build(c)
+        for n, v in all_named()[lo:hi]:
+            ref_case(md, c, "&" + n, v, acc, "named")
+        acc.sample("names", {"cfg": c, "ref": "&" + all_named()[lo][0], "value": all_named()[lo][1]}, 1)
+        return
+    if sh[0] == "numeric":
+        c = CFGS[sh[1]]
+        md = C.build(c)
+        for cp in NUMERIC_POINTS:
+            for ref in numeric_spellings(cp):
+                ref_case(md, c, ref, chr(cp), acc, "numeric")
+        acc.sample("numeric", {"cfg": c, "ref": "&#x00002A;", "value": "*"}, 1)
+        return
     if sh[0] == "t":
         _, a, L, ci = sh
         pre = a
@@ -135,6 +201,16 @@ def run_shard(sh, acc):
 def check_case(case, acc):
     c = case["cfg"]
     md = C.build(c, fresh=True)
+    if "ref" in case:
+        e = case["pre"] + case["ref"] + case["post"]
+        t = case["pre"] + case["value"] + case["post"]
+        src, exp = cases(e, esc_html(t), md.options["xhtmlOut"], True)[case["ctx"]]
+        acc.case()
+        out = acc.call(md.render, src)
+        if out is not CRASH and out != exp:
+            acc.violation(case["sub"], f"reference/{case['ctx']}", {k: case[k] for k in ("cfg", "ref", "value", "ctx", "pre", "post")},
+                          f"render({src!r}) = {out!r}, expected {exp!r}")
+        return
     t, form, name = case["t"], case["form"], case["ctx"]
     e = FORMS[form](t)
     src, exp = cases(e, esc_html(t), md.options["xhtmlOut"], True)[name]
